@@ -7,7 +7,7 @@ git -C /repo worktree add -q --detach $W HEAD || exit 2
 for P in $D/patch*.diff; do
   (cd $W && git apply "$P") || { echo "$P does not apply"; continue; }
   echo "== $(basename $P)"
-  (cd /verif; for id in "$@"; do ./run check $id -q --repo $W --verif /tmp/seedcheck-verif 2>&1 | grep -v '^VIOLATION property' | cut -c1-700; done)
+  mkdir -p /tmp/seedcheck-verif; cp /verif/known_findings.json /tmp/seedcheck-verif/; (cd /verif; for id in "$@"; do ./run check $id -q --repo $W --verif /tmp/seedcheck-verif 2>&1 | grep -v '^VIOLATION property' | cut -c1-700; done)
   (cd $W && git checkout -q -- . && git clean -fdq)
 done
 git -C /repo worktree remove --force $W
